@@ -255,6 +255,8 @@ def _call(it, e, env):
 
 
 def array_method(it, base, m, e, env, argv, kw):
+    if base is None:
+        return unk(f"method {m} of an untyped value")
     if m in ("sum", "mean", "min", "max", "any", "all", "argmin", "argmax", "std", "var", "prod"):
         axv, has = _axis_arg(it, e, env, kw, 0)
         axes = _axes_from(axv) if has else None
